@@ -43,7 +43,7 @@ ENG = {'C03': 'E-MUT', 'C04': 'E-ALIAS', 'C06': 'E-STREAM', 'C08': 'E-ROUTE', 'C
        'C14': 'E-ARRAY', 'C15': 'E-REJECT', 'C17': 'E-IO', 'C20': 'E-CHAOS'}
 
 # engines whose check has been validated on the unchanged tree (exit 0) - only these are claimed
-READY = {'C03', 'C04', 'C06', 'C08', 'C09', 'C12', 'C15', 'C17', 'C20'}
+READY = {'C03', 'C04', 'C06', 'C08', 'C09', 'C12', 'C14', 'C15', 'C17', 'C20'}
 
 def exists(p):
     if p not in READY:
